@@ -36,6 +36,14 @@ def replay_threads(pid, v):
     return None if ok else ctx.violations[0][2]
 
 
+@replayer("todyn_probe")
+def replay_todyn_probe(pid, v):
+    import p_lifetimes
+    ctx = vlib.Ctx(pid + "_replay", "quick", 1)
+    res = p_lifetimes.compile_programs(ctx, [(v["name"], v["source"])], features=tuple(v["features"]), tag=v["tag"], run=True)
+    return None if res[v["name"]][0] else res[v["name"]][1]
+
+
 @register("C17")
 def c17(ctx):
     q = ctx.tier == "quick"
@@ -82,13 +90,31 @@ def c17(ctx):
     # real threads, validated against RefThreadsTrace.tla
     trace_check(ctx, "RefThreadsTrace", bin1, "reference", [ctx.seed, 1000 if q else 10000], "threads",
                 "concurrent increments through References built over one shared Arc / lock", "reference_threads", timeout=1500)
+    # to_dyn! in calling crates built against rrtk WITHOUT std (alloc only / no features at all): compiled and run
+    import p_lifetimes
+    base = "use rrtk::*;\ntrait Val { fn get(&self) -> i32; }\nstruct Foo(i32);\nimpl Val for Foo { fn get(&self) -> i32 { self.0 } }\n"
+    for feats, tag in ((("alloc",), "probes-alloc"), ((), "probes-nofeat")):
+        progs = [("baseline", base + "fn main() { let r = static_reference!(Foo, Foo(7)); assert_eq!(r.borrow().get(), 7); }\n"),
+                 ("dyn_ptr", base + "fn main() { let r = static_reference!(Foo, Foo(7)); let d = to_dyn!(Val, r.clone()); r.borrow_mut().0 = 9; assert_eq!(d.borrow().get(), 9); }\n")]
+        if "alloc" in feats:
+            progs.append(("dyn_rc", base + "fn main() { let r = rc_ref_cell_reference(Foo(7)); let d = to_dyn!(Val, r.clone()); r.borrow_mut().0 = 9; assert_eq!(d.borrow().get(), 9); }\n"))
+        res = p_lifetimes.compile_programs(ctx, progs, features=feats, tag=tag, run=True)
+        ctx.evaluations += len(res)
+        if not res["baseline"][0]:
+            raise ToolError("baseline probe does not build against rrtk with features %s: %s" % (list(feats), res["baseline"][1]))
+        for name, src in progs[1:]:
+            if not res[name][0]:
+                ctx.violation("reference:to_dyn:%s:rrtk_features=%s" % (name, "+".join(feats) or "none"),
+                              {"replay_kind": "todyn_probe", "features": list(feats), "tag": tag, "name": name, "source": src},
+                              "to_dyn! does not work in a calling crate when rrtk is built with features [%s] (%s): %s" % (
+                                  ", ".join(feats), name, res[name][1]))
     ctx.rule = ("handles: six variants x every sequence of {clone, to_dyn, write, read, drop} up to the bound with at most 4 live handles, plus "
                 "random sequences of 12; after every operation every live handle is read and the drop counter of the payload inspected; the "
                 "harness is built twice, as a calling crate without and with cargo features named alloc / std, so every to_dyn! step runs in "
-                "both kinds of caller. threads: TLC explores all interleavings of lock / read / write / unlock for (threads, increments) in "
+                "both kinds of caller; small caller programs using to_dyn! are also built and run against rrtk with features [alloc] and with no features. threads: TLC explores all interleavings of lock / read / write / unlock for (threads, increments) in "
                 "{(2,2),(3,2),(2,3)} (mutual exclusion, no lost update, termination; the lock-free variant must fail), and real runs of "
                 "2, 3-5 and 8 threads x 1e3 (1e4 thorough) increments for the four lock-based variants are validated event by event against "
                 "RefThreadsTrace.tla. Non-trivial = a write plus a clone or to_dyn.")
     ctx.assumptions += ["real thread schedules are sampled by the OS scheduler, not enumerated; exhaustive interleaving coverage is at the model level",
-                        "to_dyn! on variants the macro does not list (PtrMutex, ArcRwLock, ArcMutex) is unspecified and not exercised"]
+                        "to_dyn! on variants the macro does not list (PtrMutex, ArcRwLock, ArcMutex) may refuse (unimplemented!()) or convert; both branches are in the specification and the one the build takes is checked (a converted handle must alias the object and keep it alive)"]
     ctx.exhaustive = False
